@@ -447,6 +447,22 @@ def c16(run, args):
         conc.append({"id": "race-%d-%s-c%dk%d" % (k, st, cap, maxkb), "store": st, "cap": cap, "maxkb": maxkb, "names": ["alpha", "beta", "gamma"],
                      "pre": [{"op": "add", "mb": 0, "meta": 1, "size": 600} for _ in range(3)], "threads": threads,
                      "repeat": (400 if st == "mem" else 60) * (1 if quick else 3)})
+    # (c') the same with listeners coming and going: while the removals race, other listeners of the same broker are replaced,
+    #      removed and added again, and the 'stored' hook under the recorded listener's name is re-registered; the recorded
+    #      'deleted' listener - never touched itself - must still get every event exactly once and one at a time
+    for k in range(6 if quick else 18):
+        st = ["mem", "file"][k % 2]
+        ids = list(range(1, 7))
+        threads = []
+        for j in range(3):
+            rng.shuffle(ids)
+            t = [{"op": "remove", "mb": 0, "id": i} for i in ids]
+            if (j + k) % 3 == 0:
+                t.insert(rng.randrange(len(t) + 1), {"op": "purge", "mb": 0})
+            threads.append(t)
+        conc.append({"id": "churn-%d-%s" % (k, st), "store": st, "cap": 0, "maxkb": 0, "names": ["alpha", "beta", "gamma"], "churn": True,
+                     "pre": [{"op": "add", "mb": 0, "meta": 1, "size": 600} for _ in range(6)], "threads": threads,
+                     "repeat": (300 if st == "mem" else 60) * (1 if quick else 3)})
     ctf = run.harness_parallel(vh, "conc", conc, "c16conc", procs=8)
     cres = run.validate("LinTrace", LIN_CFG % dict(mbs=tla_set(["alpha", "beta", "gamma"])), ctf, max_rej=2)
     run.cov["evaluations"] += cres["traces"]
